@@ -1,5 +1,5 @@
 // govc:pkg .
-// govc:bound 16 TRIGGER WHEN predicates x 6 output lists x 3 random feeds (quick; 10 with GOVC_BOUND=thorough) of 24 rows over 3 groups; one lower-case and one camelCase input field
+// govc:bound 16 TRIGGER WHEN predicates x 6 output lists x 3 random feeds (quick; 10 with GOVC_BOUND=thorough) of 24 rows over 3 groups; one input field whose name ends in "or" (sensor) and one camelCase field (wLoad)
 // Bounded stand-in (NOT a proof) for the part of the global window that is regular-expression based and outside the
 // contracts (rewriting of the TRIGGER WHEN predicate and its binding to aggregates): a group fires exactly at the rows where
 // the predicate holds on the rows received since it last fired, the result carries the aggregates over exactly those rows,
@@ -50,19 +50,19 @@ func govcGWPreds() []govcGWPred {
 	return []govcGWPred{
 		{"COUNT(*) >= 3", func(v, w []float64) bool { return len(v) >= 3 }},
 		{"COUNT(*) >= 1", func(v, w []float64) bool { return len(v) >= 1 }},
-		{"SUM(v) > 10", func(v, w []float64) bool { return govcGWSum(v) > 10 }},
-		{"SUM(v) >= 7", func(v, w []float64) bool { return govcGWSum(v) >= 7 }},
-		{"MAX(v) > 4", func(v, w []float64) bool { return govcGWMax(v) > 4 }},
-		{"MIN(v) < 1", func(v, w []float64) bool { return govcGWMin(v) < 1 }},
-		{"AVG(v) > 3", func(v, w []float64) bool { return govcGWSum(v)/float64(len(v)) > 3 }},
+		{"SUM(sensor) > 10", func(v, w []float64) bool { return govcGWSum(v) > 10 }},
+		{"SUM(sensor) >= 7", func(v, w []float64) bool { return govcGWSum(v) >= 7 }},
+		{"MAX(sensor) > 4", func(v, w []float64) bool { return govcGWMax(v) > 4 }},
+		{"MIN(sensor) < 1", func(v, w []float64) bool { return govcGWMin(v) < 1 }},
+		{"AVG(sensor) > 3", func(v, w []float64) bool { return govcGWSum(v)/float64(len(v)) > 3 }},
 		{"SUM(wLoad) > 12", func(v, w []float64) bool { return govcGWSum(w) > 12 }},
 		{"MAX(wLoad) > 4", func(v, w []float64) bool { return govcGWMax(w) > 4 }},
-		{"COUNT(*) >= 2 AND SUM(v) > 5", func(v, w []float64) bool { return len(v) >= 2 && govcGWSum(v) > 5 }},
-		{"COUNT(*) >= 4 OR MAX(v) > 4", func(v, w []float64) bool { return len(v) >= 4 || govcGWMax(v) > 4 }},
-		{"SUM(v) > 6 AND SUM(wLoad) > 6", func(v, w []float64) bool { return govcGWSum(v) > 6 && govcGWSum(w) > 6 }},
-		{"MAX(v) > 3 AND MIN(v) < 2", func(v, w []float64) bool { return govcGWMax(v) > 3 && govcGWMin(v) < 2 }},
-		{"SUM(v) > SUM(wLoad)", func(v, w []float64) bool { return govcGWSum(v) > govcGWSum(w) }},
-		{"MAX(v) > 2 AND MAX(wLoad) > 2", func(v, w []float64) bool { return govcGWMax(v) > 2 && govcGWMax(w) > 2 }},
+		{"COUNT(*) >= 2 AND SUM(sensor) > 5", func(v, w []float64) bool { return len(v) >= 2 && govcGWSum(v) > 5 }},
+		{"COUNT(*) >= 4 OR MAX(sensor) > 4", func(v, w []float64) bool { return len(v) >= 4 || govcGWMax(v) > 4 }},
+		{"SUM(sensor) > 6 AND SUM(wLoad) > 6", func(v, w []float64) bool { return govcGWSum(v) > 6 && govcGWSum(w) > 6 }},
+		{"MAX(sensor) > 3 AND MIN(sensor) < 2", func(v, w []float64) bool { return govcGWMax(v) > 3 && govcGWMin(v) < 2 }},
+		{"SUM(sensor) > SUM(wLoad)", func(v, w []float64) bool { return govcGWSum(v) > govcGWSum(w) }},
+		{"MAX(sensor) > 2 AND MAX(wLoad) > 2", func(v, w []float64) bool { return govcGWMax(v) > 2 && govcGWMax(w) > 2 }},
 		{"COUNT(*) >= 5", func(v, w []float64) bool { return len(v) >= 5 }},
 	}
 }
@@ -75,14 +75,14 @@ type govcGWOut struct {
 func govcGWOuts() []govcGWOut {
 	return []govcGWOut{
 		{"COUNT(*) AS n", func(v, w []float64) map[string]float64 { return map[string]float64{"n": float64(len(v))} }},
-		{"SUM(v) AS s", func(v, w []float64) map[string]float64 { return map[string]float64{"s": govcGWSum(v)} }},
-		{"SUM(v) AS s, COUNT(*) AS n", func(v, w []float64) map[string]float64 {
+		{"SUM(sensor) AS s", func(v, w []float64) map[string]float64 { return map[string]float64{"s": govcGWSum(v)} }},
+		{"SUM(sensor) AS s, COUNT(*) AS n", func(v, w []float64) map[string]float64 {
 			return map[string]float64{"s": govcGWSum(v), "n": float64(len(v))}
 		}},
-		{"MAX(v) AS mx, MIN(wLoad) AS mn", func(v, w []float64) map[string]float64 {
+		{"MAX(sensor) AS mx, MIN(wLoad) AS mn", func(v, w []float64) map[string]float64 {
 			return map[string]float64{"mx": govcGWMax(v), "mn": govcGWMin(w)}
 		}},
-		{"AVG(wLoad) AS a, SUM(v) AS s", func(v, w []float64) map[string]float64 {
+		{"AVG(wLoad) AS a, SUM(sensor) AS s", func(v, w []float64) map[string]float64 {
 			return map[string]float64{"a": govcGWSum(w) / float64(len(w)), "s": govcGWSum(v)}
 		}},
 		{"SUM(wLoad) AS sw, MAX(wLoad) AS mw, COUNT(*) AS n", func(v, w []float64) map[string]float64 {
@@ -123,7 +123,7 @@ func TestGovcBounded_global_window_trigger(t *testing.T) {
 				for i := 0; i < 24; i++ {
 					g := []string{"a", "b", "c"}[rng.Intn(3)]
 					v, w := float64(rng.Intn(6)), float64(rng.Intn(6))
-					s.Emit(map[string]any{"g": g, "v": v, "wLoad": w})
+					s.Emit(map[string]any{"g": g, "sensor": v, "wLoad": w})
 					a := state[g]
 					if a == nil {
 						a = &acc{}
